@@ -1,14 +1,15 @@
-"""Run the repository test suite for every kept seed whose meta.json says suite pending (scratch worktree)."""
+"""Run the repository test suite for every kept seed whose meta.json says suite pending (scratch worktree).
+usage: seed_suites.py [shard nshards]"""
 import json, glob, os, subprocess, sys, time
-WT = "/tmp/wt/suite"
+SHARD, NSH = (int(sys.argv[1]), int(sys.argv[2])) if len(sys.argv) > 2 else (0, 1)
+WT = "/tmp/wt/suite" if NSH == 1 else f"/tmp/wt/suite{SHARD}"
 def sh(c, cwd=None, t=7200):
     p = subprocess.run(c, shell=True, cwd=cwd, capture_output=True, text=True, timeout=t); return p.returncode, p.stdout + p.stderr
 if not os.path.isdir(WT):
     print(sh(f"git -C /repo worktree add -q --detach {WT} HEAD"))
-for mp in sorted(glob.glob("/verif/seeded/*/meta.json")):
+PENDING = [mp for mp in sorted(glob.glob("/verif/seeded/*/meta.json")) if json.load(open(mp))["confirmed"].get("suite") == "pending"]
+for mp in PENDING[SHARD::NSH]:
     meta = json.load(open(mp))
-    if meta["confirmed"].get("suite") != "pending":
-        continue
     d = os.path.dirname(mp)
     sh("git checkout -- . && git clean -fdq", cwd=WT)
     rc, o = sh(f"git apply {d}/patch.diff", cwd=WT)
